@@ -26,6 +26,7 @@ import (
 	"fmt"
 	"math/big"
 	"os"
+	"os/exec"
 	"path/filepath"
 	"sort"
 	"strconv"
@@ -56,18 +57,26 @@ type world struct {
 	inter  *lib.CA
 	evil   *lib.CA
 	leaves map[string]*certFn
+	sysPEM string // PEM of the CA in this process's system trust store ("" in the normal process)
 }
 
 func far() time.Time { return time.Now().Add(10 * 365 * 24 * time.Hour) }
 
-func newWorld() *world {
+// newWorld: sysCA != nil (child process started with SSL_CERT_FILE pointing at it) makes the FOREIGN root
+// of every "foreign" certificate a CA that this process's system trust store contains.
+func newWorld(sysCA *lib.CA) *world {
 	w := &world{leaves: map[string]*certFn{}}
 	for _, n := range []string{"rsa2048", "rsa3072", "ecdsa256", "ecdsa384", "ed1", "ed2", "ed3", "ed4", "ed5", "ed6"} {
 		w.pool = append(w.pool, lib.GetKeyPair(n))
 	}
 	w.root = lib.NewCA("root", nil, lib.CertOpts{NotAfter: far()})
 	w.inter = lib.NewCA("inter", w.root, lib.CertOpts{NotAfter: far()})
-	w.evil = lib.NewCA("evil", nil, lib.CertOpts{NotAfter: far()})
+	if sysCA != nil {
+		w.evil = sysCA
+		w.sysPEM = string(sysCA.PEM)
+	} else {
+		w.evil = lib.NewCA("evil", nil, lib.CertOpts{NotAfter: far()})
+	}
 	mk := func(name string, ca *lib.CA, under string, o lib.CertOpts, expired bool) {
 		if !expired {
 			o.NotAfter = far()
@@ -121,6 +130,28 @@ func rogueCert(g *certFn, name string, ca *lib.CA, under string) *certFn {
 		under: under, cn: g.cn, orgs: g.orgs}
 }
 
+// strayOf: a file <step>.<first n characters of the key id of an honest link>.link; kind 0 altered copy, 1 garbage, 2 verbatim copy
+func strayOf(st stepShape, honest *item, kind, n int) *item {
+	var m struct {
+		Signatures []intoto.Signature `json:"signatures"`
+	}
+	json.Unmarshal(honest.content, &m)
+	id := m.Signatures[0].KeyID
+	if n > len(id) {
+		n = len(id)
+	}
+	it := &item{name: st.name + "." + id[:n] + ".link"}
+	switch kind {
+	case 0:
+		it.content, it.label = tamperLegacy(honest.content), "stray-long-prefix-altered-copy"
+	case 1:
+		it.content, it.label = []byte("{garbage"), "stray-long-prefix-garbage"
+	default:
+		it.content, it.label = honest.content, "stray-long-prefix-copy"
+	}
+	return it
+}
+
 // respell changes the case of the hexadecimal letters of a key id (upper, or alternating)
 func respell(id string, mixed bool) string {
 	b := []byte(strings.ToUpper(id))
@@ -169,7 +200,8 @@ type input struct {
 	Layout        intoto.Layout       `json:"layout"`
 	Intermediates []string            `json:"intermediate_pems"`
 	Files         []fileIn            `json:"files"`
-	Honest        map[string][]string `json:"honest_ids"` // generator ground truth: step -> ids that must be counted
+	Honest        map[string][]string `json:"honest_ids"`                 // generator ground truth: step -> ids that must be counted
+	SystemTrust   string              `json:"system_trust_pem,omitempty"` // the case ran in a process whose SSL_CERT_FILE held this CA
 }
 
 type item struct {
@@ -626,6 +658,19 @@ func makers() []maker {
 			mb.Signatures = append([]intoto.Signature{forged}, mb.Signatures...)
 			return &item{name: st.name + "." + sh + ".link", content: dumpMB(mb), label: "odd-short-id"}
 		}},
+		// a stray file named with MORE than 8 characters of an honest functionary's key id, next to the honest link:
+		// altered copy (still carrying the functionary's signature entry) / garbage / verbatim copy.
+		// It is not a link file name; the honest link keeps counting.
+		{"stray-long-prefix", func(w *world, sc *scenario, st stepShape, r *lib.Rng) *item {
+			var honest *item
+			if i := pickKey(st, sc, r, true, w); i >= 0 && r.Chance(2, 3) {
+				honest = w.keyItem(st, sc, i, "key-authorised")
+			} else {
+				honest = w.certItem(st, sc, w.leaves[[]string{"alice", "bob", "carol"}[r.Intn(3)]], "cert")
+			}
+			sc.addItem(st, honest)
+			return strayOf(st, honest, r.Intn(3), []int{9, 10, 16, 33, 64}[r.Intn(5)])
+		}},
 		// a directory whose name matches the glob
 		{"directory", func(w *world, sc *scenario, st stepShape, r *lib.Rng) *item {
 			return &item{name: linkName(st.name, fakeID(r)), content: nil, label: "directory"}
@@ -827,6 +872,24 @@ func witnessScenarios(w *world, r *lib.Rng) []*scenario {
 		}
 		out = append(out, sc)
 	}
+	// honest links exactly at the threshold, each shadowed by a stray file named with a longer key id prefix
+	for v := 0; v < 6; v++ {
+		sc := &scenario{klass: "stray-long-keyid-prefix", defined: map[int]bool{1: true, 4: true}, items: map[string][]item{}, roots: "root", interIn: "layout"}
+		st := stepShape{name: "build", threshold: 2, pubkeys: []int{1, 4}, ccs: []intoto.CertificateConstraint{ccAll()}}
+		var hs []*item
+		if v%2 == 0 {
+			hs = []*item{w.keyItem(st, sc, 1, "key-authorised"), w.keyItem(st, sc, 4, "key-authorised")}
+		} else {
+			st.threshold = 1
+			hs = []*item{w.certItem(st, sc, w.leaves[[]string{"alice", "bob", "carol"}[v/2]], "cert")}
+		}
+		sc.steps = []stepShape{st}
+		for j, h := range hs {
+			sc.addItem(st, h)
+			sc.addItem(st, strayOf(st, h, (v/2+j)%3, []int{9, 12, 64}[(v+j)%3]))
+		}
+		out = append(out, sc)
+	}
 	// F14: threshold <= 0 and no (countable) links
 	for _, th := range []int{0, -1, 0} {
 		sc := &scenario{klass: "F14-nonpositive-threshold-no-links", defined: map[int]bool{0: true}, items: map[string][]item{}, roots: "root", interIn: "layout"}
@@ -837,6 +900,31 @@ func witnessScenarios(w *world, r *lib.Rng) []*scenario {
 			sc.addItem(st, byLabel["key-not-authorised"].make(w, sc, st, r))
 		}
 		out = append(out, sc)
+	}
+	return out
+}
+
+// scenarios for the child process whose system trust store holds the foreign CA (w.evil):
+// a certificate chaining only to a system-trusted CA is NOT authorised — only layout roots count
+func sysTrustScenarios(w *world, r *lib.Rng) []*scenario {
+	var out []*scenario
+	for _, roots := range []string{"none", "root"} {
+		for _, inter := range []string{"none", "layout"} {
+			for ri, ccRoots := range [][]string{star, {}} {
+				for _, who := range []string{"eve", "alice-rogue-foreign", "carol-rogue-foreign"} {
+					sc := &scenario{klass: "system-trusted-foreign-ca", defined: map[int]bool{}, items: map[string][]item{}, roots: roots, interIn: inter}
+					c := ccAll()
+					c.Roots = ccRoots
+					st := stepShape{name: "build", threshold: 1, ccs: []intoto.CertificateConstraint{c}}
+					sc.steps = []stepShape{st}
+					sc.addItem(st, w.certItem(st, sc, w.leaves[who], "cert-from-system-trusted-ca"))
+					if ri == 0 && who == "eve" && roots == "root" && inter == "layout" {
+						sc.addItem(st, w.certItem(st, sc, w.leaves["bob"], "cert-bob")) // and an honest one
+					}
+					out = append(out, sc)
+				}
+			}
+		}
 	}
 	return out
 }
@@ -937,6 +1025,7 @@ func (w *world) buildInput(sc *scenario) input {
 		in.Honest[st.name] = ids
 	}
 	in.Layout = l
+	in.SystemTrust = w.sysPEM
 	for _, st := range sc.steps {
 		for _, it := range sc.items[st.name] {
 			f := fileIn{Name: it.name, Label: it.label, Content: base64.StdEncoding.EncodeToString(it.content)}
@@ -1341,6 +1430,83 @@ func coqModel(w *world, in input, dir string) (string, string) {
 		"(c02_loaded " + layoutT + " " + filesT + ")"
 }
 
+// ---------------------------------------------------------------- system trust store batch
+
+// a fresh CA written to dir (certificate + PKCS#8 key) so that a child process can both trust it
+// (SSL_CERT_FILE) and issue leaves from it
+func makeSysCA(dir string) string {
+	os.MkdirAll(dir, 0o755)
+	ca := lib.NewCA("systrust", nil, lib.CertOpts{NotAfter: far()})
+	der, err := x509.MarshalPKCS8PrivateKey(ca.Signer)
+	if err != nil {
+		panic(err)
+	}
+	os.WriteFile(filepath.Join(dir, "ca.pem"), ca.PEM, 0o644)
+	os.WriteFile(filepath.Join(dir, "ca.key.pem"), pem.EncodeToMemory(&pem.Block{Type: "PRIVATE KEY", Bytes: der}), 0o600)
+	return filepath.Join(dir, "ca.pem")
+}
+
+func loadSysCA(dir string) *lib.CA {
+	cp, err := os.ReadFile(filepath.Join(dir, "ca.pem"))
+	if err != nil {
+		panic(err)
+	}
+	kp, err := os.ReadFile(filepath.Join(dir, "ca.key.pem"))
+	if err != nil {
+		panic(err)
+	}
+	cb, _ := pem.Decode(cp)
+	cert, err := x509.ParseCertificate(cb.Bytes)
+	if err != nil {
+		panic(err)
+	}
+	kb, _ := pem.Decode(kp)
+	key, err := x509.ParsePKCS8PrivateKey(kb.Bytes)
+	if err != nil {
+		panic(err)
+	}
+	k, err := lib.LoadKeyPEM(cp)
+	if err != nil {
+		panic(err)
+	}
+	// sanity: this process must really trust the CA, otherwise the batch would be vacuous
+	if _, err := cert.Verify(x509.VerifyOptions{}); err != nil {
+		panic("system trust store does not contain the batch CA (SSL_CERT_FILE not honoured?): " + err.Error())
+	}
+	return &lib.CA{Name: "systrust", Cert: cert, Signer: key.(crypto.Signer), PEM: cp, Key: k}
+}
+
+func runSysChild(base string, n int) []lib.Case {
+	pemPath := makeSysCA(filepath.Join(base, "sysca"))
+	out := filepath.Join(base, "cases-sys.jsonl")
+	cmd := exec.Command(os.Args[0], "gensys", out, strconv.Itoa(n))
+	cmd.Env = append(os.Environ(), "SSL_CERT_FILE="+pemPath, "SSL_CERT_DIR=/nonexistent")
+	if b, err := cmd.CombinedOutput(); err != nil {
+		tail := string(b)
+		if len(tail) > 1500 {
+			tail = tail[len(tail)-1500:]
+		}
+		panic("system-trust child failed: " + err.Error() + "\n" + tail)
+	}
+	f, err := os.ReadFile(out)
+	if err != nil {
+		panic(err)
+	}
+	var cs []lib.Case
+	for _, line := range strings.Split(string(f), "\n") {
+		if strings.TrimSpace(line) == "" {
+			continue
+		}
+		var c lib.Case
+		if err := json.Unmarshal([]byte(line), &c); err != nil {
+			panic(err)
+		}
+		cs = append(cs, c)
+	}
+	os.Remove(out)
+	return cs
+}
+
 // ---------------------------------------------------------------- main
 
 func main() {
@@ -1349,23 +1515,41 @@ func main() {
 		os.Exit(2)
 	}
 	switch os.Args[1] {
-	case "gen":
+	case "gen", "gensys":
 		n, _ := strconv.Atoi(os.Args[3])
 		exhaustive := len(os.Args) > 4 && os.Args[4] == "exhaustive"
 		base := filepath.Dir(os.Args[2])
-		old, _ := filepath.Glob(filepath.Join(base, "run-*"))
+		child := os.Args[1] == "gensys"
+		var sysCA *lib.CA
+		prefix := "run-"
+		if child {
+			sysCA = loadSysCA(filepath.Join(base, "sysca"))
+			prefix = "run-sys-"
+		}
+		old, _ := filepath.Glob(filepath.Join(base, prefix+"*"))
 		for _, o := range old {
 			os.RemoveAll(o)
 		}
-		w := newWorld()
+		w := newWorld(sysCA)
 		r := lib.NewRng(lib.Seed())
 		mk := makers()
-		scs := witnessScenarios(w, r.Fork())
-		if exhaustive {
-			scs = append(scs, exhaustiveScenarios(w, r.Fork(), mk)...)
-		}
-		for i := 0; i < n; i++ {
-			scs = append(scs, randomScenario(w, r.Fork(), mk))
+		var scs []*scenario
+		if child {
+			r = lib.NewRng(lib.Seed() + 1000003)
+			scs = sysTrustScenarios(w, r.Fork())
+			for i := 0; i < n; i++ {
+				sc := randomScenario(w, r.Fork(), mk)
+				sc.klass = "systrust-" + sc.klass
+				scs = append(scs, sc)
+			}
+		} else {
+			scs = witnessScenarios(w, r.Fork())
+			if exhaustive {
+				scs = append(scs, exhaustiveScenarios(w, r.Fork(), mk)...)
+			}
+			for i := 0; i < n; i++ {
+				scs = append(scs, randomScenario(w, r.Fork(), mk))
+			}
 		}
 		cases := make([]lib.Case, len(scs))
 		loaderCases := make([]lib.Case, len(scs))
@@ -1379,7 +1563,7 @@ func main() {
 				defer func() { <-sem }()
 				sc := scs[i]
 				in := w.buildInput(sc)
-				dir := filepath.Join(base, fmt.Sprintf("run-%05d", i))
+				dir := filepath.Join(base, fmt.Sprintf("%s%05d", prefix, i))
 				materialise(in, dir)
 				c := lib.Case{Klass: sc.klass, Input: lib.MustJSON(in)}
 				c.Impl = runImpl(in, dir)
@@ -1388,7 +1572,7 @@ func main() {
 				}
 				var loaderT string
 				c.CoqModel, loaderT = coqModel(w, in, dir)
-				small := input{Layout: in.Layout, Intermediates: in.Intermediates, Files: in.Files}
+				small := input{Layout: in.Layout, Intermediates: in.Intermediates, Files: in.Files, SystemTrust: in.SystemTrust}
 				loaderCases[i] = lib.Case{Klass: "loader", Input: lib.MustJSON(small), Impl: runLoader(in, dir), CoqModel: loaderT,
 					Trivial: len(in.Files) == 0}
 				c.Trivial = len(in.Files) == 0
@@ -1409,6 +1593,17 @@ func main() {
 		for _, c := range cases {
 			wr.Put(c)
 		}
+		if !child {
+			// the batch that needs another system trust store: a child process with SSL_CERT_FILE set
+			// (Go reads the system roots once per process)
+			nsys := n / 5
+			if nsys > 150 {
+				nsys = 150
+			}
+			for _, c := range runSysChild(base, nsys) {
+				wr.Put(c)
+			}
+		}
 		for _, c := range loaderCases {
 			wr.Put(c)
 		}
@@ -1426,6 +1621,16 @@ func main() {
 		}
 		if err := json.Unmarshal(b, &c); err != nil {
 			panic(err)
+		}
+		if c.Input.SystemTrust != "" && os.Getenv("C02_SYSTRUST_CHILD") == "" {
+			pemPath := filepath.Join(filepath.Dir(os.Args[2]), "replay-systrust.pem")
+			os.WriteFile(pemPath, []byte(c.Input.SystemTrust), 0o644)
+			fmt.Println("(case of the system-trust batch: re-running in a child process with SSL_CERT_FILE=" + pemPath + ")")
+			cmd := exec.Command(os.Args[0], os.Args[1:]...)
+			cmd.Env = append(os.Environ(), "SSL_CERT_FILE="+pemPath, "SSL_CERT_DIR=/nonexistent", "C02_SYSTRUST_CHILD=1")
+			cmd.Stdout, cmd.Stderr = os.Stdout, os.Stderr
+			cmd.Run()
+			return
 		}
 		olds, _ := filepath.Glob(filepath.Join(filepath.Dir(os.Args[2]), "replay-dir-*"))
 		for _, o := range olds {
